@@ -243,6 +243,14 @@ def run_check(pid, session, tier, seed, replay_path=None):
     REPLAYS.mkdir(exist_ok=True)
     EVID.mkdir(exist_ok=True)
     lean = lean_stage(pid, tier == "thorough")
+    # a (changed) implementation reading garbage may ask numpy for tens of gigabytes: make that a MemoryError in the
+    # call (which the sessions record as "raised") instead of letting the whole check be killed by the OOM killer
+    try:
+        import resource
+        lim = int(os.environ.get("VERIF_AS_LIMIT_GB", "6")) << 30
+        resource.setrlimit(resource.RLIMIT_AS, (lim, lim))
+    except Exception:
+        pass
     ctx = Ctx(pid, tier, seed)
     if DRV.exists():
         guarded_run(session, ctx)
